@@ -98,8 +98,7 @@ for _h, _band, _what in (
         ("z", "[0]", "zero run pending -> joins the run, an empty correction-bit entry is buffered"),
         ("n", "[2]", "NO zero, one correction bit pending -> still joins the run (the `R > 0 or BR > 0` rule), the bit is buffered"),
         ("p", "[1]", "newly nonzero +1 alone: pending run coded first, code(0 << 4 | 1), sign 1; no new run"),
-        ("np", "[-2, 1]", "an already-nonzero coefficient is skipped: run 0, its correction bit follows the sign bit"),
-        ("mn", "[-1, 2]", "tail after the coded coefficient: its correction bit starts a new run of 1")):
+        ("np", "[-2, 1]", "an already-nonzero coefficient is skipped: run 0, its correction bit follows the sign bit")):
     _J("jb2.refinement_band_%s" % _h, ["C17", "C01"], JSC, JSCM, "refinement_band_%s" % _h,
        "bounded:band %s (concrete); one 5-bit code table built by the real build(); every EOBRUN 0..=32766 and <= 1 earlier buffered "
        "correction-bit entry of <= 10 bits on entry" % _band,
